@@ -174,6 +174,27 @@ def regex_sequences(quick):
     return out
 
 
+def chain_boundaries():
+    """regexps and hex strings with counted wildcard runs at, below and above the length where the compiler cuts a string into chained pieces (200), greedy and
+    lazy, at the START, in the MIDDLE and at the END of the string, alone and two in a row"""
+    out = []
+    runs = [(0, 199), (0, 200), (1, 200), (1, 201), (1, 300), (199, 201), (200, 200), (201, 201), (250, None), (0, None), (201, None)]
+    def rng(n, m): return ".{%d,%s}" % (n, "" if m is None else m)
+    for (n, m) in runs:
+        for lazy in ("", "?"):
+            x = rng(n, m) + lazy
+            for (P, Q) in (("abc", "def"), ("abc", ""), ("", "def"), ("a", "b"), ("abc", "d*"), ("ab|cd", "ef")):
+                out.append(("chain-boundary:regex", n, "rule r { strings: $a = /%s%s%s/ condition: $a }" % (P, x, Q)))
+            out.append(("chain-boundary:regex", n, "rule r { strings: $a = /abc%s%s/ condition: $a }" % (x, x)))
+            out.append(("chain-boundary:regex", n, "rule r { strings: $a = /abc%sdef%s/ condition: $a }" % (x, x)))
+            out.append(("chain-boundary:regex", n, "rule r { strings: $a = /(abc%s)+x/ condition: $a }" % x))
+            out.append(("chain-boundary:matches", n, 'rule r { condition: "abcdef" matches /abc%s/ }' % x))
+        j = "[%d-%s]" % (n, "" if m is None else m)
+        for (P, Q) in (("61 62 63", "64 65 66"), ("61", "62"), ("61 62 63", "( 64 | 65 66 )"), ("61 62 63", "?? 64"), ("61 62 63", "64 " + j + " 65")):
+            out.append(("chain-boundary:hex", n, "rule r { strings: $a = { %s %s %s } condition: $a }" % (P, j, Q)))
+    return out
+
+
 CANARY_SRC = 'rule canary { strings: $a = "abcd" $r = /ab+c/ condition: $a and $r }'
 CANARY_BUF = b"xxabcdxx"
 
@@ -291,6 +312,8 @@ def main():
     for L in (1, 100, 900, 980, 990, 1000, 1005, 1010, 1015, 1020, 1023, 1024, 1025, 1100, 2000, 4000, 8000):
         for form in ('include "%s.yar"', 'include "sub/%s.yar"', 'include "../%s"', 'include "/%s"'):
             items.append(("include-paths", [], "filemode:include-name-length", L, (form % ("I" * L)) + "\nrule r { condition: true }"))
+    for (kind, n, text) in chain_boundaries():
+        items.append(("chain-boundaries", [], kind, n, text))
     for (kind, n, text) in regex_sequences(quick):
         items.append(("regex-sequences", [], kind, n, text))
         items.append(("regex-sequences", [], "strict:" + kind, n, text))
